@@ -10,7 +10,8 @@ RULE = ('generated terminating programs (1..9 chained blocks printing markers, e
         'boundary-dense line numbers incl. 0 and 65529) whose control flow uses every kind of line reference '
         '(GOTO, IF..THEN n / THEN GOTO / ELSE n / IF..GOTO, ON..GOTO, GOSUB, ON..GOSUB, RETURN n, RESTORE n, RUN n, '
         'ERROR + ON ERROR GOTO n with IF ERL=n .. RESUME n / RESUME NEXT, re-entry of the first line, byte constants '
-        'equal to token values in front of GOTO) plus never-executed decoy lines (LIST/DELETE/EDIT/LLIST ranges, '
+        'equal to token values in front of GOTO, constants 0..260 incl. every token-lead byte value and existing line '
+        'numbers directly after ERROR / = / PRINT / ABS( with references behind them on the same line) plus never-executed decoy lines (LIST/DELETE/EDIT/LLIST ranges, '
         'ON KEY/TIMER/PEN/STRIG/COM/PLAY GOSUB, references to missing lines, ON ERROR GOTO 0, digits inside strings, REM '
         'and DATA); 1..3 successive RENUMs per program with arguments around the acceptance boundaries (kept lines >= '
         'new, last number 65529/65530, step 0, omitted arguments, old between/after lines); a case = one RENUM on one '
@@ -33,6 +34,11 @@ REPORT_RX = re.compile(br'Undefined line (\d+) in (\d+)\r\n')
 IN_RX = re.compile(br' in (\d+)')
 BOUNDARY = [0, 1, 2, 9, 10, 11, 14, 100, 167, 255, 256, 257, 1000, 3598, 8359, 10000, 32767, 32768, 35239, 42751, 42752,
             42753, 65000, 65519, 65527, 65528, 65529]
+
+
+# byte values that are token leads / delimiters for skip_to (number tokens 0B..0F, 1C..1F, quote, colon, REM, GOTO, ERROR,
+# two-byte token prefixes) and the switch points of the constant encodings (0..10 one byte, 11..255 0F xx, 256.. 1C lo hi)
+CONST_LEADS = [0, 9, 10, 11, 12, 13, 14, 15, 28, 29, 30, 31, 32, 34, 58, 137, 143, 167, 253, 254, 255, 256, 257, 258, 259, 260]
 
 
 class Loop(Exception):
@@ -109,6 +115,8 @@ def gen_decoy(rng, names):
     X = ('X',)
     N = ('N',)
     nz = ('XNZ',)
+    K = ('K',)
+    TL = ('T',)
     forms = [
         ['GOSUB ', X, ':RETURN ', X], ['RESTORE ', X], ['RUN ', X], ['RESUME ', nz], ['LIST ', X, '-', X],
         ['DELETE ', X, '-', X], ['EDIT ', X], ['LLIST ', X, '-'], ['IF ERL=', X, ' THEN ', X, ' ELSE ', X],
@@ -120,6 +128,12 @@ def gen_decoy(rng, names):
         ['IF A THEN ', X], ['IF A THEN PRINT 10 ELSE ', X], ['IF A THEN GOTO ', X, ' ELSE GOSUB ', N],
         ['X=14:Y=3598:Z%=&HE0E:PRINT 167;137'], ['A$="GOTO 10, THEN 20":GOTO ', X],
         ['ERROR 167:GOTO ', X], ['IF X=35239! GOTO ', X], ['IF X=42752! GOTO ', X],
+        # constants of every byte value (token leads included) directly after ERROR / other keywords, references behind
+        ['ERROR ', K, ':GOTO ', X], ['ERROR ', K, ':GOSUB ', X, ':IF A THEN ', X, ' ELSE ', X], ['ERROR ', TL, ':GOTO ', X],
+        ['ERROR ', TL], ['ERROR ', K], ['X=', K, ':ON ERROR GOTO ', nz], ['ERROR ', K, ':ON ERROR GOTO 0:GOTO ', X],
+        ['PRINT ', K, ':RESTORE ', X], ['ERROR ', K, ' :IF ERL=', X, ' THEN ', X], ['ERROR  ', K, ':RESUME ', nz],
+        ['ERROR ', K, ':ERROR ', K, ':GOTO ', N, ':GOTO ', X], ['IF X=', K, ' THEN ', X], ['Y=ABS(', K, '):RUN ', X],
+        ['ERROR ', K, ':GOTO ', X], ['ERROR ', K, ':GOSUB ', X],
     ]
     pcs = []
     for k in range(rng.choice([1, 1, 2, 3])):
@@ -188,7 +202,8 @@ def gen_program(rng, want_stop=False):
             pcs += ['X=14:Y=3598:Z%=&HE0E:PRINT "goto 10 ";:']
         if i == stop_at:
             pcs += ['PRINT "stop";:STOP:']
-        kind = rng.randrange(14)
+        kind = rng.randrange(19)
+        KC = ('K',)
         if T == 'Z' and rng.random() < 0.3:
             kind = 0
         if kind == 0:
@@ -214,6 +229,19 @@ def gen_program(rng, want_stop=False):
             pcs += ['ERROR 99']
         elif kind == 10:
             pcs += ['ERROR 98:GOTO ', L(T)]
+        elif kind == 14:
+            # any constant (byte values equal to token leads included) right after ERROR, the reference behind it
+            pcs += ['ERROR ', rng.choice([KC, KC, KC, ('T',)])] + rng.choice([
+                [':GOTO ', L(T)], [':IF G>0 THEN ', L(T)], [':GOSUB ', L(sub(T))], [':GOSUB ', L(sub()), ':GOTO ', L(T)],
+                [' :GOTO ', L(T)]])
+        elif kind == 15:
+            pcs += ['X=', KC, ':GOTO ', L(T)]
+        elif kind == 16:
+            pcs += ['PRINT ', KC, ';:IF G>0 THEN ', L(T)]
+        elif kind == 17:
+            pcs += ['X=-2:IF X<>', KC, ' THEN ', L(T)]
+        elif kind == 18:
+            pcs += ['Y=ABS(', KC, '):GOSUB ', L(sub()), ':GOTO ', L(T)]
         elif kind == 11:
             pcs += ['X=167:IF X=168 GOTO ', X, ' ELSE IF X=167 GOTO ', L(T)]
         elif kind == 12:
@@ -272,6 +300,12 @@ def gen_program(rng, want_stop=False):
             return num_of[p[1]]
         if p[0] == 'N':
             return missing()
+        if p[0] == 'K':
+            return '%d' % (rng.choice(CONST_LEADS) if rng.random() < 0.6 else rng.randrange(261))
+        if p[0] == 'T':
+            # an existing line number used as a plain constant: never renumbered (the lister shows singles with `!`)
+            c = rng.choice(nums)
+            return '%d%s' % (c, '!' if c > 32767 else '')
         if p[0] == 'XS':
             return num_of[rng.choice(subs)]
         nonzero = p[0] == 'XNZ'
@@ -631,6 +665,14 @@ def fixed_cases():
                [[None, None, None], [42742, 5, 10]]))
     cs.append(('fixed-two-jumps', P((0, ['PRINT "a":END']), (10, ['ON ERROR GOTO 0']), (20, ['IF 0 THEN GOTO ', 35239, ' ', 0]),
                                   (35239, ['END'])), [[100, 0, None], [None, 110, 1]]))
+    # constants whose byte value is a token lead directly after ERROR, references behind them on the same line
+    cs.append(('fixed-error-const', P((5, ['GOTO ', 60]), (10, ['ERROR 34: GOTO ', 50]), (20, ['ON ERROR GOTO ', 1000]), (30, ['ERROR 14']),
+                                    (40, ['ERROR 143:GOSUB ', 50, ':IF A THEN ', 60, ' ELSE ', 5]), (50, ['ERROR 28:GOTO ', 5]),
+                                    (52, ['ERROR 29:GOTO ', 5, ':GOTO ', 50]), (55, ['ERROR 31:GOTO ', 60, ':GOTO ', 5, ':GOTO ', 50, ':GOTO ', 10]),
+                                    (56, ['ERROR 255:GOTO ', 60, ':ERROR 253:GOTO ', 7]), (57, ['ERROR 58:GOTO ', 60, ':ERROR 15:GOTO ', 5]),
+                                    (58, ['ERROR 60:GOTO ', 60, ':ERROR 1000:GOTO ', 1000]),
+                                    (60, ['PRINT "x":END']), (1000, ['RESUME NEXT'])),
+               [[100, None, None], [None, 120, 3], [1, None, 1]]))
     # D1 (repaired): traps outside the renumbered range are exercised by the trap mode; boundaries of acceptance
     cs.append(('fixed-bounds', P((10, ['GOTO ', 30]), (20, ['END']), (30, ['PRINT "x":END'])),
                [[20, 30, None], [21, 30, None], [65529, 30, None], [65520, 20, 10], [65519, 20, 10], [None, None, 0],
